@@ -450,6 +450,15 @@ class VM(Machine):
         ctx = self.ctx
         spec = self.loop_spec(fr, site) if isinstance(site, ast.AST) else None
         name = f"{fr.func.qualname if fr.func else '?'}::loop{self.loop_ordinal(fr, site) if isinstance(site, ast.AST) else site}"
+        if spec is None and isinstance(site, ast.AST):
+            # invariants may be attached to WHAT is iterated instead of WHERE (robust against moving a loop into a helper)
+            best = None
+            for prefix, sp in getattr(self.spec, "stream_loops", {}).items():
+                if s.name.startswith(prefix) and (best is None or len(prefix) > len(best[0])):
+                    best = (prefix, sp)
+            if best is not None:
+                spec = best[1]
+                name = f"loop-over-{best[0]}"
         if spec is not None and spec.inv is not None:
             ctx.check(f"{name}::inv-entry", spec.inv(self, fr))
         mode = ctx.choice(2, name)
